@@ -95,4 +95,18 @@ def check (T : Tables) (C : Cert) : Bool :=
   T.tok3 == [[0]] && T.tok1.get? 0 == some T.eofCode && decide (0 < T.tok1.size) &&
   ((List.range (NS T)).all fun s => stateOK T C s)
 
+/-- the fuel that always suffices: (tokens + 1) rounds of at most `maxRank + 1`
+reductions and a shift -/
+def fuelFor (C : Cert) (input : List Int) : Nat := (input.length + 1) * (C.maxRank + 2) + 1
+
+/-- the outcomes a parser may have on an input of `N` tokens: accept, an
+abort by a semantic action, or a syntax error AT a lookahead token (index ≤ N,
+= N: at the end of the input) — never an index panic, never out of fuel -/
+def GoodOutcome (N : Nat) : Outcome → Prop
+  | .accept => True
+  | .syntaxError i => i ≤ N
+  | .actionError => True
+  | .panic => False
+  | .outOfFuel => False
+
 end Martian.LexerLR
